@@ -111,16 +111,20 @@ impl ReadZone {
                 }
             }
             Some(Special::NxDomain) => {
+                // The node itself has no records but it may well be an
+                // empty non-terminal with names below it.
+                let answer = self.query_children(
+                    node.children(),
+                    label,
+                    qname,
+                    qtype,
+                    walk.clone(),
+                );
                 if walk.enabled() {
-                    self.query_children(
-                        node.children(),
-                        label,
-                        qname,
-                        qtype,
-                        walk,
-                    );
+                    NodeAnswer::nx_domain()
+                } else {
+                    answer
                 }
-                NodeAnswer::nx_domain()
             }
             Some(Special::Cname(cname)) => {
                 if walk.enabled() {
